@@ -383,6 +383,29 @@ func checkC08(w *World, r *Report) {
 								}
 							}
 						}
+					default:
+						// first word -> record {second word, whole operator}
+						if cl, ok := ast.Unparen(kv.Value).(*ast.CompositeLit); ok {
+							ast.Inspect(cl, func(nn ast.Node) bool {
+								e, ok := nn.(ast.Expr)
+								if !ok {
+									return true
+								}
+								tv := w.Info.Types[e]
+								if tv.Value == nil || tv.Value.Kind() != constant.String {
+									return true
+								}
+								for _, s := range []string{constant.StringVal(tv.Value), k + " " + constant.StringVal(tv.Value)} {
+									if strings.Contains(s, " ") && isWordOp(s) && len(strings.Fields(s)) == 2 {
+										assembled[s] = true
+										if !multi[s] {
+											r.bad("R08.1", fname, fmt.Sprintf("assembled operator %q", s), w.pos(x), "the parser assembles a multi-word operator that has no precedence entry")
+										}
+									}
+								}
+								return true
+							})
+						}
 					}
 				}
 				if len(words) > 0 && !seenTop[lit] {
